@@ -41,7 +41,10 @@ static void enc_step(prog_t *g,int managed){
   if(s==0){ vorbis_info_init(&g->vi); int r=managed?vorbis_encode_init(&g->vi,1,22050,-1,48000,-1):vorbis_encode_init_vbr(&g->vi,2,44100,0.4f); hmixi(&g->out,r);
     vorbis_comment_init(&g->vc); vorbis_comment_add_tag(&g->vc,"ENCODER","inst"); vorbis_analysis_init(&g->vd,&g->vi); vorbis_block_init(&g->vd,&g->vb); g->r.s=managed?99:77; }
   else if(s==1){ ogg_packet h[3]; vorbis_analysis_headerout(&g->vd,&g->vc,&h[0],&h[1],&h[2]); for(int i=0;i<3;i++) hmix(&g->out,h[i].packet,h[i].bytes); }
-  else if(s>=2&&s<=7){ int n=3000; float **b=vorbis_analysis_buffer(&g->vd,n); int ch=g->vi.channels; for(int i=0;i<n;i++) for(int c=0;c<ch;c++){ double u=rng_unit(&g->r)*2-1; b[c][i]=(float)(u*(((g->done+i)/2500)&1?0.6:0.03)); }
+  else if(s>=2&&s<=7){ int n=3000; float **b=vorbis_analysis_buffer(&g->vd,n); int ch=g->vi.channels; for(int i=0;i<n;i++) for(int c=0;c<ch;c++){ double u=rng_unit(&g->r)*2-1; b[c][i]=(float)(u*(((g->done+i)/2500)&1?0.6:0.03));
+      /* the VBR encoder starts, the managed one ends, on a stretch far below one 16-bit step but not digitally silent: the linear predictor that
+         extrapolates before the first and behind the last sample stops early there and must leave no tap to chance */
+      if((!managed&&g->done+i<4096)||(managed&&s==7)) b[c][i]=(float)(u*1e-7); }
     vorbis_analysis_wrote(&g->vd,n); g->done+=n; enc_drain(g); }
   else if(s==8){ vorbis_analysis_wrote(&g->vd,0); enc_drain(g); }
   else if(s==9){ vorbis_block_clear(&g->vb); vorbis_dsp_clear(&g->vd); vorbis_comment_clear(&g->vc); vorbis_info_clear(&g->vi); }
@@ -72,7 +75,11 @@ static void vf_step(prog_t *g,int which){
   }
   if(s==9) hmixi(&g->out,ov_clear(&g->vf));
 }
+/* what an earlier, unrelated call left on the stack must not matter: with VERIF_FILL set, every step starts on a stack painted with that byte */
+static int g_paint=-1;
+static __attribute__((noinline)) void stack_paint(int v){ volatile char buf[1<<19]; memset((void*)buf,v,sizeof buf); __asm__ volatile(""::"r"(buf):"memory"); }
 static void prog_step(prog_t *g){
+  if(g_paint>=0) stack_paint(g_paint);
   int r0=fegetround(); unsigned m0=mxcsr();
   switch(g->id){ case 0: enc_step(g,0); break; case 1: enc_step(g,1); break; case 2: dec_step(g); break; case 3: vf_step(g,0); break; default: vf_step(g,1); break; }
   if(fegetround()!=r0||mxcsr()!=m0) g->fpu_bad=g->pc+1;
@@ -122,7 +129,7 @@ static int global_line(char **tok,int nt){
     if(!gL[0]||!gL[1]||!gL[2]){ ev_begin("LinkFail"); ev_end(); return 1; }
     layout_t la[2]; memset(la,0,sizeof la); la[0].serial=11; la[1].serial=12; la[1].nppp=1; la[1].ppp[0]=2; link_t *a[2]={gL[0],gL[1]}; gF[0]=file_build(0,2,a,la);
     layout_t lb[2]; memset(lb,0,sizeof lb); lb[0].serial=21; lb[1].serial=22; lb[0].nppp=1; lb[0].ppp[0]=3; link_t *b[2]={gL[2],gL[1]}; gF[1]=file_build(1,2,b,lb);
-    const char *fill=getenv("VERIF_FILL"); ev_begin("Prepared"); ev_s("fill",fill?fill:"none"); ev_end();
+    const char *fill=getenv("VERIF_FILL"); if(fill) g_paint=(int)strtol(fill,NULL,16)&255; ev_begin("Prepared"); ev_s("fill",fill?fill:"none"); ev_end();
     return 1; }
   return 0;
 }
